@@ -618,7 +618,7 @@ func (c *diskCache) loadExistingFiles(maxSizeBytes int64, cc CacheConfig) error 
 	for i := 0; i < len(result.item); i++ {
 		ok := c.lru.Add(result.metadata[i].lookupKey, *result.item[i])
 		if !ok {
-			err = os.Remove(filepath.Join(c.dir, result.metadata[i].lookupKey))
+			err = os.Remove(c.getElementPath(result.metadata[i].lookupKey, *result.item[i]))
 			if err != nil {
 				return err
 			}
